@@ -36,7 +36,7 @@ struct CrystalSpec {
 
 enum FileMut {
   FM_NONE = 0, FM_NO_UCELL, FM_DUP_UCELL, FM_BAD_UCELL, FM_NO_L, FM_SHORT_ATOM, FM_NONNUM_ATOM, FM_LONG_LINE, FM_NO_EOF,
-  FM_TRUNC_TEXT, FM_RANDOM_BYTES, FM_EMPTY, FM_LONG_NAME, FM_BAD_S, FM_EXTRA_COLS, FM_CRLF, FM_NO_ATOMS, FM_N
+  FM_TRUNC_TEXT, FM_RANDOM_BYTES, FM_EMPTY, FM_LONG_NAME, FM_BAD_S, FM_EXTRA_COLS, FM_CRLF, FM_NO_ATOMS, FM_NO_FINAL_NL, FM_N
 };
 extern const char* const kFileMutNames[FM_N];
 
@@ -141,7 +141,7 @@ struct CrystalData {
   bool volume_comparable() const;
 };
 CrystalData expand_crystal(const CrystalSpec& s);
-std::string render_crystal_file(const FileSpec& fs, bool* wellformed, std::vector<CrystalData>* contents, long* data_end = nullptr);
+std::string render_crystal_file(const FileSpec& fs, bool* wellformed, std::vector<CrystalData>* contents, long* data_end = nullptr, bool* layout_only = nullptr);
 extern std::vector<CrystalData> g_builtin_crystals;   // parsed independently from data/Crystals.dat
 void load_builtin_crystals(const char* path);
 
